@@ -88,13 +88,19 @@ pub mod runtime {
             };
             let waker = sched.blocking_waker(id);
             let mut cx = std::task::Context::from_waker(&waker);
-            let mut f = std::pin::pin!(f);
-            loop {
+            // Budgeting is per outer poll and there is only one outer poll here.
+            let mut f = std::pin::pin!(::tokio::task::unconstrained(f));
+            // Go through the real `block_on`: entering the runtime seeds the thread's RNG (used
+            // by `select!`) from the runtime's seeded generator instead of from entropy.  The
+            // outer future never returns `Pending`: when the inner one does, the baton goes
+            // back to the scheduler, which resumes this thread once the inner waker has fired.
+            use std::future::Future as _;
+            self.0.block_on(std::future::poll_fn(move |_| loop {
                 if let std::task::Poll::Ready(v) = f.as_mut().poll(&mut cx) {
-                    return v;
+                    return std::task::Poll::Ready(v);
                 }
                 sched.blocking_yield(id, super::super::Yield::Blocked);
-            }
+            }))
         }
     }
 }
